@@ -24,6 +24,8 @@ var (
 	tFilterOpts = ty{lean: "Trans.FilterOpts"}
 	tPtrSet     = ty{lean: "List Nat", kind: "ptrset"}
 	tIndexOpts  = ty{lean: "IndexSig.Opts"}
+	tGrp        = ty{lean: "Layers.Grp"}
+	tLPkg       = ty{lean: "Layers.LPkg"}
 )
 
 func transTablesFor(versionConsts map[string]int64) *transTables {
@@ -41,6 +43,8 @@ func transTablesFor(versionConsts map[string]int64) *transTables {
 			"map[*RepositoryPackage]string": tPtrSet, // only membership of a package is read: the set of the ids
 			"*filterOptions":                tFilterOpts,
 			"*indexOpts":                    tIndexOpts,
+			"*group":                        tGrp,
+			"*apk.Package":                  tLPkg,
 		},
 		fields: map[fieldKey]fieldVal{
 			{"Pkg", "Name"}:                         {".name", tText},
@@ -58,6 +62,9 @@ func transTablesFor(versionConsts map[string]int64) *transTables {
 			{"Trans.FilterOpts", "installed"}:       {".installed", tOptPkg},
 			{"IndexSig.Opts", "ignoreSignatures"}:   {".ignoreSignatures", tBool},
 			{"IndexSig.Opts", "noSignatureIndexes"}: {".noSignatureIndexes", listOf(tText)},
+			{"Layers.Grp", "size"}:                  {".size", tNat},
+			{"Layers.Grp", "tiebreaker"}:            {".tb", tText},
+			{"Layers.LPkg", "Name"}:                 {".name", tText},
 			{"Trans.FilterOpts", "compare"}:         {".compare", tDep},
 			{"Pkg.repository", "URI"}:               {".repo", tText},
 			{"Version", "numbers"}:                  {".numbers", listOf(tNat)},
@@ -82,6 +89,8 @@ func transTablesFor(versionConsts map[string]int64) *transTables {
 			"cmp.Compare":                        {lean: "Trans.cmpCompare", t: tInt},
 			// path vetting (C18): the lexical path functions of Model/Path.lean and Model/Confine.lean
 			"IndexURL":          {lean: "IndexSig.indexURL", t: tText},
+			"cmp.Compare/Nat":   {lean: "Trans.cmpCompareNat", t: tInt},
+			"cmp.Or":            {lean: "Trans.cmpOr", t: tInt}, // two arguments
 			"filepath.Clean":    {lean: "Path.clean", t: tText},
 			"filepath.Dir":      {lean: "Path.dir", t: tText},
 			"filepath.Join":     {lean: "Path.join2", t: tText}, // two arguments (more do not type-check in Lean)
@@ -125,6 +134,11 @@ func transFiles() []transFile {
 	return []transFile{
 		{out: "TransIndexSig", imports: []string{"Apko.Model.IndexSig", "Apko.Model.TransPrelude"}, prefix: "index.go", targets: []transTarget{
 			{file: "pkg/apk/apk/index.go", fn: "shouldCheckSignatureForIndex", lean: "shouldCheckSignatureForIndex"},
+		}},
+		{out: "TransLayers", imports: []string{"Apko.Model.Layers", "Apko.Model.TransPrelude"}, prefix: "layers.go", targets: []transTarget{
+			// the two comparators handed to slices.SortFunc at the end of groupByOriginAndSize
+			{file: "pkg/build/layers.go", fn: "groupByOriginAndSize", lean: "groupCmp", lit: 1},
+			{file: "pkg/build/layers.go", fn: "groupByOriginAndSize", lean: "pkgCmp", lit: 2},
 		}},
 		{out: "TransConfine", imports: []string{"Apko.Model.Confine", "Apko.Model.TransPrelude"}, prefix: "common.go", targets: []transTarget{
 			{file: commonGo, fn: "isWithin", lean: "isWithinApk"},
